@@ -394,6 +394,21 @@ func IsValidHostname
 // ---------------------------------------------------------------------------
 // reversed.go
 
+// ASCII lower-casing (used instead of strings.ToLower by the ARPA decoders)
+spec fn lowerOf(s string, r string) bool = len(r) == len(s) && (forall i in 0..len(s): r[i] == lowerByte(s[i]))
+
+func asciiToLower
+  ensures lowered: lowerOf(s, lower)
+  loop 0
+    invariant safe_idx: 0 <= i && i <= len(s)
+    invariant no_upper_so_far: forall k in 0..i: !(s[k] >= 'A' && s[k] <= 'Z')
+    decreases len(s) - i
+  loop 1
+    invariant safe_idx: 0 <= i && i <= len(b) && len(b) == len(s)
+    invariant done: forall k in 0..i: b[k] == lowerByte(s[k])
+    invariant todo: forall k in i..len(b): b[k] == s[k]
+    decreases len(b) - i
+
 // dotsIn(t, n): number of '.' among the first n bytes of t.
 spec fn dotsIn(t string, n int) int = countIn(t, '.', n)
 
